@@ -148,12 +148,60 @@ theorem reserved_name_rule (isBuiltIn : Bool) (name : String) :
   unfold reservedNameDiags
   cases isBuiltIn <;> cases h : name.startsWith "__" <;> simp
 
-/-- Clauses of C15 whose rules are transliterations without a Lean model (kinds of referenced types:
-    output types for fields, input types for arguments and input fields, objects for union members).
-    Stated for the record; carried by the invariant checker on every `Valid<Schema>` (oracle). -/
+/-- "Every referenced type exists with the right kind": acceptance by the kind checks implies it.
+    (Formerly an unproved placeholder; now the soundness half of `C14.reference_kinds_rule_iff_spec`.) -/
 def referenced_types_have_right_kind : Prop :=
-  ∀ (kindOf : String → Option Nat) (fieldTypes argTypes inputFieldTypes unionMembers : List String),
-    True → (∀ n ∈ fieldTypes ++ argTypes ++ inputFieldTypes ++ unionMembers, (kindOf n).isSome)
+  ∀ (kindOf : String → Option Implementation.Kind) (t : Implementation.TypeRefs),
+    Implementation.typeRefDiags kindOf t = [] → Implementation.Spec.RefsRightKind kindOf t
+
+theorem referenced_types_have_right_kind_holds : referenced_types_have_right_kind :=
+  fun kindOf t h => (C14.reference_kinds_rule_iff_spec kindOf t).mp h
+
+/-- the model schema with what the contract and kind rules look at -/
+structure MSchemaF extends MSchema where
+  /-- `schema.is_subtype` -/
+  isSubtype : Name → Name → Bool
+  /-- fields of interface `i` (`none`: the name is not an interface) -/
+  getIface : Nat → Option (List Implementation.FieldM)
+  /-- fields of type `a` -/
+  typeFields : Nat → List Implementation.FieldM
+  /-- `schema.types.get` as a kind -/
+  kindOf : String → Option Implementation.Kind
+  /-- inner named types referenced by definition `a` -/
+  refs : Nat → Implementation.TypeRefs
+
+def AcceptsF (limit : Nat) (M : MSchemaF) : Prop :=
+  Accepts limit M.toMSchema ∧
+  (∀ (a : Nat) (t : TypeInfo), M.s[a]? = some t →
+    Implementation.implDiags M.isSubtype M.getIface (M.typeFields a) t.implements = []) ∧
+  (∀ a, Implementation.typeRefDiags M.kindOf (M.refs a) = [])
+
+def InvF (M : MSchemaF) : Prop :=
+  Inv M.toMSchema ∧
+  -- the field and argument contracts of everything a type implements
+  (∀ (a : Nat) (t : TypeInfo), M.s[a]? = some t → ∀ i ∈ t.implements, ∀ ifields, M.getIface i = some ifields →
+    Implementation.Spec.ValidImplementation M.isSubtype (M.typeFields a) ifields) ∧
+  -- every referenced type exists with the right kind
+  (∀ a, Implementation.Spec.RefsRightKind M.kindOf (M.refs a))
+
+/-- `valid_implies_invariants` extended with the field/argument contracts (IsValidImplementation for
+    every declared interface) and the kinds of referenced types, now that those rules are modelled. -/
+theorem valid_implies_invariants_full (limit : Nat) (M : MSchemaF) (h : AcceptsF limit M) : InvF M :=
+  ⟨valid_implies_invariants limit M.toMSchema h.1,
+   fun a t ht => (C14.implementation_rule_iff_spec M.isSubtype M.getIface (M.typeFields a) t.implements).mp (h.2.1 a t ht),
+   fun a => (C14.reference_kinds_rule_iff_spec M.kindOf (M.refs a)).mp (h.2.2 a)⟩
+
+/-- The two further evaluators of the `c15.inv` stream compute the declarative clauses. -/
+theorem contracts_inv_iff (sub : Name → Name → Bool) (s : ISchema) (fields : List (List Implementation.FieldM)) :
+    Implementation.contractsInv sub s fields = true ↔
+      ∀ a, a < s.length → ∀ i ∈ (s.getD a default).implements, ∀ ifields,
+        Implementation.ifaceFields s fields i = some ifields →
+        Implementation.Spec.ValidImplementation sub (fields.getD a []) ifields :=
+  Implementation.contractsInv_iff sub s fields
+
+theorem kinds_inv_iff (kindOf : String → Option Implementation.Kind) (refs : List Implementation.TypeRefs) :
+    Implementation.kindsInv kindOf refs = true ↔ ∀ t ∈ refs, Implementation.Spec.RefsRightKind kindOf t :=
+  Implementation.kindsInv_iff kindOf refs
 
 -- Non-vacuity
 example : Accepts 32 ⟨[[⟨true, 1⟩], [⟨false, 0⟩]], [⟨true, []⟩, ⟨true, [0]⟩, ⟨false, [1, 0]⟩],
